@@ -80,6 +80,9 @@ type CaseResult struct {
 
 var termCols = 80
 
+// the process' own standard output (the library's writes are captured by swapping os.Stdout)
+var realStdout = os.Stdout
+
 // RunCases realises each case on the real library, sends it to the model, compares the
 // observation blocks line by line and hands both to `after` for the property oracles.
 func (c *Ctx) RunCases(cases []*Case, after func(cr *CaseResult)) {
@@ -110,7 +113,7 @@ func (c *Ctx) RunCases(cases []*Case, after func(cr *CaseResult)) {
 			c.R.Notes = append(c.R.Notes, "run aborted: the implementation hung on "+path)
 			c.queue = nil
 			c.Finish(c.Start, c.Rule, c.Out)
-			fmt.Printf("harness %s ABORTED: implementation hang, case %s\n", c.Prop, path)
+			fmt.Fprintf(realStdout, "harness %s ABORTED: implementation hang, case %s failures=1\n", c.Prop, path)
 			os.Exit(0)
 		}
 		if pan != nil {
